@@ -385,16 +385,17 @@ def network_case(rng: random.Random, *, nsteps=None, step=None, kinds=("optical"
         reward = {"name": rname, "metrics": [{"name": m} for m in mets]}
     dextra = {"seed": rng.randrange(1, 2**31)} if dec == "RandomDecision" else None
     engines = []
+    eid_a, eid_b = rng.choice([(1, 2), (1, 2), (0, 1), (2, 0), (7, 3)])
     if n_sensors >= 2 and rng.random() < two_engines_p:
         cut = rng.randrange(1, n_sensors)
         t_a = targets if rng.random() < 0.5 or n_targets < 2 else targets[: max(1, n_targets // 2)]
         t_b = targets if t_a is targets and rng.random() < 0.5 else targets[-max(1, n_targets // 2):]
-        engines.append(engine_block(1, sensors[:cut], t_a, dec, reward, dextra))
+        engines.append(engine_block(eid_a, sensors[:cut], t_a, dec, reward, dextra))
         kinds_b = {s["sensor"]["type"] for s in sensors[cut:]}
         dec_b = dec if dec != "AllVisibleDecision" or kinds_b == {"adv_radar"} else "MunkresDecision"
-        engines.append(engine_block(2, sensors[cut:], t_b, dec_b, reward, {"seed": rng.randrange(1, 2**31)} if dec_b == "RandomDecision" else None))
+        engines.append(engine_block(eid_b, sensors[cut:], t_b, dec_b, reward, {"seed": rng.randrange(1, 2**31)} if dec_b == "RandomDecision" else None))
     else:
-        engines.append(engine_block(1, sensors, targets, dec, reward, dextra))
+        engines.append(engine_block(eid_a, sensors, targets, dec, reward, dextra))
     est = estimation or estimation_block(dynamics=model if rng.random() < 0.8 else "two_body")
     if noise is None:
         big = coarse and rng.random() < 0.5
